@@ -292,9 +292,15 @@ namespace cds { namespace intrusive {
             value_type * m_pNode;
             typename gc::Guard  m_Guard;
 
+            // Checks if the current node is logically deleted: marked but not unlinked yet
+            bool is_deleted() const
+            {
+                return node_traits::to_node_ptr( *m_pNode )->m_pNext.load( memory_model::memory_order_acquire ).bits() != 0;
+            }
+
             void next()
             {
-                if ( m_pNode ) {
+                while ( m_pNode ) {
                     typename gc::Guard g;
                     node_type * pCur = node_traits::to_node_ptr( *m_pNode );
 
@@ -309,7 +315,12 @@ namespace cds { namespace intrusive {
                     else {
                         m_pNode = nullptr;
                         m_Guard.clear();
+                        break;
                     }
+
+                    // A logically deleted node can stay linked until the next search passes by - skip it
+                    if ( !is_deleted())
+                        break;
                 }
             }
 
@@ -327,6 +338,8 @@ namespace cds { namespace intrusive {
                     if ( cds_likely( p == pNode.load(memory_model::memory_order_acquire)))
                         break;
                 }
+                if ( m_pNode && is_deleted())
+                    next();
             }
 
         public:
@@ -897,7 +910,8 @@ namespace cds { namespace intrusive {
         /// Checks whether the list is empty
         bool empty() const
         {
-            return m_pHead.load( memory_model::memory_order_relaxed ).all() == nullptr;
+            // The list may contain logically deleted nodes that have not been unlinked yet
+            return cbegin() == cend();
         }
 
         /// Returns list's item count
